@@ -269,8 +269,9 @@ impl Space for Structured {
 // all clique-tree shapes: chordal patterns built clique by clique
 // ----------------------------------------------------------------------
 /// Every pattern obtained from K cliques where clique i > 0 hangs below an earlier clique p(i), shares the
-/// last s_i in {1,2} vertices of that clique and adds a_i in {1,2,3} new vertices; clique 0 has a_0 + 1
-/// vertices. (K! / K) * 3^K * 2^(K-1) shapes, up to 3K+1 vertices: the merge strategies see chains and stars
+/// last s_i in {1,2,3} vertices of that clique (large overlaps are what makes a merge profitable: two cliques of
+/// 4 sharing 3 merge, two cliques of 3 sharing 2 do not) and adds a_i in {1,2,3} new vertices; clique 0 has
+/// a_0 + 1 vertices. (K-1)! * 3^K * 3^(K-1) shapes, up to 3K+1 vertices: the merge strategies see chains and stars
 /// of small cliques with every combination of sizes and overlaps -- the situations in which they merge
 /// repeatedly. Vertices are numbered in creation order or reversed (two labelings).
 pub struct CliqueTrees {
@@ -280,7 +281,7 @@ impl CliqueTrees {
     fn shapes(&self) -> u64 {
         let k = self.k as u64;
         let parents: u64 = (1..k).product::<u64>().max(1);
-        parents * 3u64.pow(self.k as u32) * (1u64 << (self.k - 1))
+        parents * 3u64.pow(self.k as u32) * 3u64.pow(self.k as u32 - 1)
     }
     fn build(&self, id: u64) -> (usize, Vec<Vec<usize>>, &'static str, bool) {
         let mut d = Digits(id);
@@ -296,7 +297,7 @@ impl CliqueTrees {
                 n += 1;
             } else {
                 let p = d.take(i as u64) as usize;
-                let s = d.take(2) as usize + 1;
+                let s = d.take(3) as usize + 1;
                 let par = &cliques[p];
                 let s = s.min(par.len());
                 c.extend(par[par.len() - s..].iter().cloned());
@@ -329,7 +330,7 @@ impl Space for CliqueTrees {
         json!({"vertices": n, "cliques": cliques, "merge_method": merge, "labels_reversed": reversed})
     }
     fn bound(&self) -> Value {
-        json!({"cliques": self.k, "new_vertices_per_clique": [1,2,3], "separator_sizes": [1,2], "parents": "every earlier clique", "labelings": 2, "merge_methods": MERGES})
+        json!({"cliques": self.k, "new_vertices_per_clique": [1,2,3], "separator_sizes": [1,2,3], "parents": "every earlier clique", "labelings": 2, "merge_methods": MERGES})
     }
     fn run(&self, id: u64, ctx: &mut Ctx) -> CaseResult {
         let (n, cliques, merge, _) = self.build(id);
@@ -549,7 +550,7 @@ pub fn spaces(tier: &str, seed: u64) -> Vec<Box<dyn Space>> {
         v.push(Box::new(AllGraphs { n }));
     }
     v.push(Box::new(Structured { sizes: if thorough { vec![8, 15, 31, 40, 63, 100, 127, 200, 255, 400] } else { vec![8, 15, 31, 40, 63, 127] } }));
-    for k in 2..=(if thorough { 6 } else { 5 }) {
+    for k in 2..=(if thorough { 6 } else { 4 }) {
         v.push(Box::new(CliqueTrees { k }));
     }
     if thorough {
